@@ -93,9 +93,24 @@ def one(rng):
     return conn_case(B, rng.choice([1, 9]), segs, scripts, rs, ws, rng.choice([0, 1])), tags
 
 
+def abandoned_read_case(rng):
+    """a handler that polls a read ONCE while a management reply is only partly flushed (the transport accepts a few bytes, then
+    says not-ready), drops that read future — a timeout, a select! — and then writes through a StreamWriter (known finding F6)"""
+    rid = 1
+    recs = minimal_preamble(rid, 1, flags=0) + [record(GETVALUES, 0, nv(list(b"FCGI_MAX_CONNS"), []), 0),
+                                               record(STDIN, rid, [97, 98, 99], 0), record(STDIN, rid, [], 0)]
+    segs = [(0, 0, flat(recs))]
+    then = rng.choice([("write", STDOUT, [104, 105]), ("flush", STDERR)])
+    scripts = [[("read", 16), ("poll1", rng.choice([1, 5, 64])), then, ("ret", 0, 0)]]
+    ws = [rng.choice([1, 3, 8, 20]), 0] + [10 ** 6] * 10
+    return conn_case(rng.choice([64, 8192]), 1, segs, scripts, [], ws, rng.choice([0, 1])), ["peer", "query", "abandoned-read-then-write"]
+
+
 def gen_cases(rng, tier):
     for _ in range(1500 if tier == "quick" else 80000):
         yield one(rng)
+    for _ in range(6 if tier == "quick" else 60):
+        yield abandoned_read_case(rng)
 
 
 def nontrivial(line, tags):
@@ -103,7 +118,7 @@ def nontrivial(line, tags):
 
 
 def min_classes(tier):
-    return {"before-first": 150, "after-params": 150, "mid-stream": 150, "same-segment-as-end": 150, "between": 100}
+    return {"before-first": 150, "after-params": 150, "mid-stream": 150, "same-segment-as-end": 150, "between": 100, "abandoned-read-then-write": 6}
 
 
 def signature(line, impl_line):
@@ -113,6 +128,11 @@ def signature(line, impl_line):
         return ""
     cfg, rs, ws, segs, scripts = C07.decode_case(line)
     head, consumed, wlog, inv, shut = C07.parse_events(o)
+    if inv and scripts:
+        hops = C07.handler_ops(scripts[min(len(inv) - 1, len(scripts) - 1)])
+        evs = inv[-1]["ops"]
+        if evs and len(evs) < len(hops) and evs[-1][0][0] == 11 and evs[-1][0][1] == 2 and hops[len(evs)][0] in ("write", "flush"):
+            return "self-deadlock:handler-writes-after-abandoned-read"
     n_end = sum(1 for r in parse_records(wlog)[0] if r[0] == END and r[2][4:5] in ([0], [2], [3]))
     return "deadlock:after-%d-end-requests:handler-%s" % (min(n_end, 1), "active" if len(inv) > n_end else "idle")
 
